@@ -71,6 +71,7 @@ type asCtx struct {
 }
 
 type asEngine struct {
+	wedged      bool // the scheduler lost track of a goroutine in this case
 	s           *sched.Sched
 	sys         *actor.System
 	cancel      context.CancelFunc
@@ -866,14 +867,18 @@ func (e *asEngine) Exec(line string) (obs string, viol string) {
 		if e.s != nil && e.s.Stuck != "" && viol == "" {
 			viol = "scheduler watchdog: " + e.s.Stuck[:min(len(e.s.Stuck), 800)]
 			e.s.Stuck = ""
+			e.wedged = true // the rest of this case would time out op by op: skip to the next reset
 		}
 	}()
 	atoi := func(s string) int { n, _ := strconv.Atoi(s); return n }
 	switch {
 	case tk[0] == "reset":
+		e.wedged = false
 		return e.reset(len(tk) > 1 && tk[1] == "1"), ""
 	case e.sys == nil:
 		return "bad-op", ""
+	case e.wedged:
+		return "stuck", ""
 	case tk[0] == "script" && len(tk) == 3:
 		sc, ok := parseAsScript(tk[2])
 		if !ok {
